@@ -4,7 +4,7 @@ use ntex_bytes::{Buf, BytePages, Bytes, BytesMut};
 use ntex_codec::{Decoder, Encoder};
 
 use crate::error::{DecodeError, EncodeError};
-use crate::types::{FixedHeader, QoS, packet_type};
+use crate::types::{FixedHeader, MAX_PACKET_SIZE, QoS, packet_type};
 use crate::utils::{decode_variable_length, truncate_pages};
 
 use super::{Decoded, Encoded, Publish, decode, encode};
@@ -222,6 +222,9 @@ impl Codec {
                     return Err(EncodeError::ExpectPayload);
                 }
                 let content_size = encode::get_encoded_size(&pkt);
+                if content_size > MAX_PACKET_SIZE as usize {
+                    return Err(EncodeError::OverMaxPacketSize);
+                }
                 encode::encode(&pkt, dst, content_size as u32)?;
                 Ok(())
             }
@@ -231,9 +234,15 @@ impl Codec {
                     return Err(EncodeError::PacketIdRequired);
                 }
 
-                let content_size = encode::get_encoded_publish_size(&pkt) as u32;
-                if self.max_size.get() != 0 && content_size > self.max_size.get() {
+                let content_size = encode::get_encoded_publish_size(&pkt);
+                if content_size > MAX_PACKET_SIZE as usize
+                    || (self.max_size.get() != 0 && content_size > self.max_size.get() as usize)
+                {
                     return Err(EncodeError::OverMaxPacketSize);
+                }
+                let content_size = content_size as u32; // safe: not bigger than MAX_PACKET_SIZE
+                if buf.as_ref().is_some_and(|buf| buf.len() > pkt.payload_size as usize) {
+                    return Err(EncodeError::OverPublishSize);
                 }
 
                 encode::encode_publish(&pkt, dst, content_size)?; // safe: max_size <= u32 max value
